@@ -151,7 +151,8 @@ def decide_engine(pid, spec, tier, seed, theorems, t0):
     count = spec['thorough'] if tier == 'thorough' else spec['quick']
     known = fw.load_known()
     res = fw.correspondence(seed, count, spec['monitors'], profile=spec.get('profile'), tag=pid,
-                            directed=spec.get('directed'))
+                            directed=spec.get('directed'),
+                            small_budget=(0 if spec.get('profile') else (400 if tier == 'thorough' else 60)))
     mine = [v for v in res['viols'] if v['property'] == pid]
     pre = spec['pre']() if spec.get('pre') else None
     if pre and pre.get('viols'):
